@@ -413,9 +413,9 @@ func rpGraphFromBits(n int, bits uint64, dangling bool) rpSpec {
 func init() {
 	fw.Register(&fw.Property{
 		ID: "C07", Level: "exploration",
-		Rule: "all directed graphs with self-loops on 1-3 nodes (2+16+512, each also with a dangling dependency, loaded 3x for fresh map orders) completely; quick: 3000 sampled 4-node graphs, thorough: all 65536; random graphs to 9 nodes; acyclic graphs are additionally run with instantly-exiting simulated commands for every subset of requested processes (n<=4), with and without no-deps, disabled/foreground/namespace markings and replica counts on leaves; distinct = graph + selection",
+		Rule:        "all directed graphs with self-loops on 1-3 nodes (2+16+512, each also with a dangling dependency, loaded 3x for fresh map orders) completely; quick: 3000 sampled 4-node graphs, thorough: all 65536; random graphs to 9 nodes; acyclic graphs are additionally run with instantly-exiting simulated commands for every subset of requested processes (n<=4), with and without no-deps, disabled/foreground/namespace markings and replica counts on leaves; distinct = graph + selection",
 		Assumptions: []string{"reference: Kahn cycle detection, set closure, order-validity predicate", "a requested disabled process counts as explicitly started"},
-		Exhaustive: func(tier string) bool { return false },
+		Exhaustive:  func(tier string) bool { return false },
 		Gen: func(seed int64, tier string) []fw.Case {
 			var cs []fw.Case
 			for n := 1; n <= 3; n++ {
